@@ -6,7 +6,7 @@ from harness import common, schemes as S
 from univers import versions as V
 from univers.version_constraint import VersionConstraint
 
-MODULES = ["Univers.Props.C14"]
+MODULES = ["Univers.Props.C14", "Univers.Py.ClassPins"]
 LEVEL = "proof"
 RULE = ("exhaustive over the class matrix: every ordered pair of version classes of the library (regenerated table) x "
         "six operators x sampled valid versions of each class, the observed outcome (TypeError / False / True) against "
